@@ -5,6 +5,7 @@ import (
 	"go/ast"
 	"go/token"
 	"go/types"
+	"strings"
 
 	"golang.org/x/tools/go/packages"
 	"golang.org/x/tools/go/ssa"
@@ -625,4 +626,121 @@ func coreOf(fn *ssa.Function) *ssa.Function {
 		fn = cand.Call.StaticCallee()
 	}
 	return fn
+}
+
+// errorFlattenRule: diagnostics keep their group structure. The only wrapper of an error in module code
+// is grouperror.Prefix, which prefixes every member of a group; formatting an error value into text
+// (fmt.Errorf/Sprintf/Sprint with an error operand, or err.Error() outside a panic) turns a group of
+// violations into one entry, so the numbered list and the count lose all but the first line's key.
+func errorFlattenRule(e *Env, rule string) {
+	r := e.R
+	errT := types.Universe.Lookup("error").Type().Underlying().(*types.Interface)
+	isErr := func(v ssa.Value) bool {
+		v = unwrap(v)
+		t := v.Type()
+		if t == nil {
+			return false
+		}
+		if b, ok := t.Underlying().(*types.Basic); ok && b.Kind() == types.UntypedNil {
+			return false
+		}
+		return types.Implements(t, errT)
+	}
+	formatters := map[string]bool{"fmt.Errorf": true, "fmt.Sprintf": true, "fmt.Sprint": true, "fmt.Sprintln": true, "fmt.Appendf": true}
+	n, bad := 0, 0
+	for _, c := range moduleCalls(e.P) {
+		cc := c.ins.Common()
+		if formatters[c.name] && len(cc.Args) > 0 {
+			n++
+			for _, a := range varargs(cc.Args[len(cc.Args)-1]) {
+				if isErr(a) && mayBeGroup(e, a, map[ssa.Value]bool{}) {
+					bad++
+					r.Violate(rule, c.fnKey+" -> "+c.name+"#error-operand", "an error value is formatted into the text of a new error or message: if it is a group (several violations of one element) its members are glued into one entry and lose their prefix; wrap with grouperror.Prefix instead", nil, e.P.Pos(c.ins.Pos()))
+				}
+			}
+			continue
+		}
+		if cc.IsInvoke() && cc.Method.Name() == "Error" && isErrorType(cc.Value.Type()) {
+			n++
+			// allowed: the text goes straight into panic(...)
+			okUse := true
+			if v := c.ins.Value(); v != nil && v.Referrers() != nil {
+				for _, ref := range *v.Referrers() {
+					mi, isMI := ref.(*ssa.MakeInterface)
+					if !isMI {
+						okUse = false
+						continue
+					}
+					for _, r2 := range *mi.Referrers() {
+						if _, isP := r2.(*ssa.Panic); !isP {
+							okUse = false
+						}
+					}
+				}
+			}
+			if !okUse && mayBeGroup(e, cc.Value, map[ssa.Value]bool{}) {
+				bad++
+				r.Violate(rule, c.fnKey+" -> error.Error()#flattened", "the text of an error is taken (err.Error()) and used outside a panic: a group of violations becomes one string", nil, e.P.Pos(c.ins.Pos()))
+			}
+		}
+	}
+	if bad == 0 {
+		r.Hold(rule, "module#no-error-flattening", fmt.Sprintf("%d formatting calls and Error() calls of module code inspected: none takes an error operand (errors are wrapped by grouperror.Prefix only)", n))
+	}
+}
+
+// mayBeGroup: can this error value be a group of several violations? Errors that come straight from a call
+// into a package outside the module and outside grouperror (os, strconv, yaml, …) are single errors;
+// everything else (results of module functions and interfaces, grouperror.*, parameters, fields) may be a group.
+func mayBeGroup(e *Env, v ssa.Value, seen map[ssa.Value]bool) bool {
+	v = unwrap(v)
+	if seen[v] {
+		return false
+	}
+	seen[v] = true
+	switch x := v.(type) {
+	case *ssa.Const:
+		return false
+	case *ssa.Phi:
+		for _, ed := range x.Edges {
+			if mayBeGroup(e, ed, seen) {
+				return true
+			}
+		}
+		return false
+	case *ssa.Extract:
+		return mayBeGroup(e, x.Tuple, seen)
+	case *ssa.Call:
+		cc := x.Common()
+		if cc.IsInvoke() {
+			if pk := cc.Method.Pkg(); pk != nil && !e.P.InModulePath(pk.Path()) {
+				return false
+			}
+			return true
+		}
+		if g := cc.StaticCallee(); g != nil && g.Pkg != nil {
+			path := g.Pkg.Pkg.Path()
+			if e.P.InModulePath(path) || strings.Contains(path, "/grouperror") {
+				return true
+			}
+			return false
+		}
+		return true
+	case *ssa.UnOp:
+		if x.Op == token.MUL {
+			if al, ok := x.X.(*ssa.Alloc); ok {
+				any := false
+				for _, ref := range *al.Referrers() {
+					if st, ok := ref.(*ssa.Store); ok && st.Addr == al {
+						if mayBeGroup(e, st.Val, seen) {
+							any = true
+						}
+					}
+				}
+				return any
+			}
+		}
+		return true
+	}
+	return true
 }
